@@ -173,6 +173,20 @@ def run(rep, tier, seed):
             for simple in (False, True):
                 cases.append((Todd, tmpl % w, simple))
                 rep.count('odd_character_texts')
+    # interrupted names: a multi-word name (some holding an operator word) with one to three foreign words put between two of
+    # its words, alone and inside an expression: the foreign words must still be accounted for
+    Tint = [('GPL-2.0', [], False), ('GPL-2.0-or-later', ['GPL 2.0 or later'], False), ('LGPL', ['lesser or library gpl', 'gnu lesser gpl'], False),
+            ('mit', ['mit and x11 license'], False), ('cp', ['classpath with runtime exception'], True)]
+    for name in ('GPL 2.0 or later', 'lesser or library gpl', 'gnu lesser gpl', 'mit and x11 license', 'classpath with runtime exception'):
+        ws = name.split()
+        for cut in range(1, len(ws)):
+            for k in (1, 2, 3):
+                for _ in range(2 if tier == 'quick' else 6):
+                    ins = [rng.choice(['a', 'much', 'the', 'one', 'my', 'own', 'zz']) for _ in range(k)]
+                    body = ' '.join(ws[:cut] + ins + ws[cut:])
+                    for text in (body, 'mit and ' + body, body + ' or mit', 'mit or (' + body + ')'):
+                        cases.append((Tint, gen.vary_case(rng, text) if rng.random() < 0.3 else text, False))
+                        rep.count('interrupted_name_texts')
     # regression inputs of the repaired defects
     cases += [([('GNU GPL', [], False), ('GPL 2.0', [], False)], 'GNU GPL 2.0 or mit', False),
               ([('GPL 2.0', [], False), ('mit', [], False)], 'mit or gpl    2.0', False),
